@@ -1,3 +1,4 @@
+mod alloc;
 mod codec;
 mod engine;
 mod fq;
@@ -5,6 +6,9 @@ mod refcodec;
 mod sim;
 
 use serde_json::Value;
+
+#[global_allocator]
+static GLOBAL: alloc::Counting = alloc::Counting;
 use std::io::{BufRead, Write};
 
 fn arg(args: &[String], name: &str) -> Option<String> {
@@ -99,6 +103,15 @@ fn cmd_c02(args: &[String]) {
     println!("{}", serde_json::json!({"streams": evs.len(), "partitions": evs.iter().map(|e| e["partitions"].as_u64().unwrap_or(0)).sum::<u64>()}));
 }
 
+fn cmd_c03(args: &[String]) {
+    let inp = arg(args, "--in").expect("--in");
+    let out = arg(args, "--out").expect("--out");
+    let vectors = read_ndjson(&inp);
+    engine::install_panic_hook();
+    let n = codec::c03(&vectors, arg(args, "--progress"), out);
+    println!("{}", serde_json::json!({"vectors": vectors.len(), "events": n}));
+}
+
 fn main() {
     let args: Vec<String> = std::env::args().collect();
     match args.get(1).map(|s| s.as_str()) {
@@ -106,6 +119,7 @@ fn main() {
         Some("fq") => cmd_fq(&args),
         Some("c01") => cmd_c01(&args),
         Some("c02") => cmd_c02(&args),
+        Some("c03") => cmd_c03(&args),
         _ => {
             eprintln!("usage: zv run --in scripts.ndjson --out trace.ndjson");
             std::process::exit(2);
